@@ -90,7 +90,8 @@ def rules(rep, m):
         # classify the path by the branch facts taken after the resume
         succ = None
         for e in tr:
-            if e[0] == "assume" and re.fullmatch(r"\(cmi_coroutine_yield\(NULL\) (!=|==) (NULL|0)\)", e[1]):
+            if e[0] == "assume" and (re.fullmatch(r"\(cmi_coroutine_yield\(NULL\) (!=|==) (NULL|0)\)", e[1]) or
+                                     re.fullmatch(r"\((NULL|0) (!=|==) cmi_coroutine_yield\(NULL\)\)", e[1])):
                 ne = "!=" in e[1]
                 succ = (not e[2]) if ne else e[2]
         if succ is None:
